@@ -8,7 +8,7 @@ ROOT = os.path.dirname(os.path.dirname(os.path.abspath(__file__)))
 # id -> (technique, level text, level note, design ref)
 CHECKS = {
  "C20": ("differential between two builds of the crate (default vs no_std) over generated corpora: transcript equality line by line",
-         "Texts, near-valid byte strings, instruction streams and model-defined programs + inputs from the generators of C13/C14/C06/C15/C01 are evaluated by the default build (in-process, executions fork-isolated) and by a second binary linking the crate with default features off (JIT from caller-supplied executable memory); assembler, verifier, disassembler, interpreter and JIT results must be identical. X lines carry stack-usage calculator and helper set and run on all four VM kinds; the no_std JIT memory is also placed near the helpers and on either side of the +-2^31 distances from them. D lines also cover the near-valid byte strings of C06 (a panic is an answer like any other); R lines compile, run, re-bind every helper id to another function, compile again and run again on one VM object in both builds. Exploration.",
+         "Texts, near-valid byte strings, instruction streams and model-defined programs + inputs from the generators of C13/C14/C06/C15/C01 are evaluated by the default build (in-process, executions fork-isolated) and by a second binary linking the crate with default features off (JIT from caller-supplied executable memory); assembler, verifier, disassembler, interpreter and JIT results must be identical. X lines carry stack-usage calculator and helper set and run on all four VM kinds; the no_std JIT memory is also placed near the helpers and on either side of the +-2^31 distances from them. D lines also cover the near-valid byte strings of C06 (a panic is an answer like any other); R lines with a second program compile, run, replace the program with set_program(), compile and run again on one VM object; R lines compile, run, re-bind every helper id to another function, compile again and run again on one VM object in both builds. Exploration.",
          "The no_std build is linked into a std binary; only the kind of an error is compared, never its message.",
          "DESIGN.md section 3, C20"),
  "C18": ("stress exploration with generated configurations (threads x engines x addends x iteration counts) and an invariant oracle over the final memory state",
@@ -25,7 +25,7 @@ CHECKS = {
          "DESIGN.md section 3, C10"),
  "C02": ("proptest + exhaustive boundary windows of single-access probes against an exact address oracle, fork-isolated with PROT_NONE guard pages and canary arenas",
          "Each probe is one access instruction whose effective address sits at a generated distance (-9..+9) from a boundary of packet, metadata buffer, registered range or stack, or is null / top-of-address-space / wrapping / far; the child process knows the real addresses and decides allowed <=> inside exactly one region, then checks Ok + exact value / stored bytes, or Err + no byte changed. Thorough enumerates every (boundary, delta, kind, width) for fixed layouts. Probes may be preceded, in the same basic block, by a narrower access at the same address, by in-bounds loads through the same register at other offsets, or by an in-bounds access after which the base register is redefined (lddw, mov, add, stack reload, helper result, ldabs); layouts include ranges 1-7 bytes apart and a range covering all others in every registration order. Layouts also cover the raw and no-data VM structs and a registered range that encloses the packet; one probe in eight runs under an accept-all verifier and moves r10 just before the access. Exploration (exhaustive within the windows in the thorough tier).",
-         "Stack boundaries are probed r10-relative; registered ranges are kept from touching other regions.",
+         "Stack boundaries are probed r10-relative (half of the probes through r10 itself, half through a copy); registered ranges are kept from touching other regions.",
          "DESIGN.md section 3, C02"),
  "C07": ("proptest over generated call graphs against the reference model's C07 semantics, on the interpreter (value and error clauses) and the JIT (value clauses)",
          "Programs with 1-6 functions, forward/backward/long displacements, recursion bounded by a counter (depth 0-10), per-function callee-saved values, stack slots, r10 spills, helper calls with small ids, with and without a table-driven stack-usage calculator; every register/frame effect is folded into r0 and compared with the model. Calls in tail position (half of them self-recursive) and `callx +0` are generated. All four VM kinds; half of the VMs are created empty, configured (helpers, calculator) first and loaded last. Exploration.",
@@ -52,7 +52,7 @@ CHECKS = {
          "Premise classification trusts the model; watchdog hits are inconclusive; known finding I2 excluded by signature.",
          "DESIGN.md section 3, C03"),
  "C04": ("proptest differential Cranelift vs interpreter under a model-checked premise, plus a refusal oracle for programs with local calls",
-         "Equivalence as for C03 with cranelift_compile / execute_program_cranelift on programs without local calls; programs with an eBPF-to-eBPF call (with and without a registered helper whose id equals the displacement) must make cranelift_compile return Err. The instruction matrix and pair matrix of C01 (second instruction entered in sequence and by jump) run through the same differential, as do the overlapping-slot cases of C03 and the big-packet stream of C01 (accesses far into a packet of 32-160 KiB). A third of the VMs each: program given to new(); created empty, configured first and loaded last; program given to new(), configured, then the same program loaded again with set_program() (the configuration must survive a reload). Exploration.",
+         "Equivalence as for C03 with cranelift_compile / execute_program_cranelift on programs without local calls; programs with an eBPF-to-eBPF call (with and without a registered helper whose id equals the displacement) must make cranelift_compile return Err. The instruction matrix and pair matrix of C01 (second instruction entered in sequence and by jump) run through the same differential, as does the item 'packet load, store to those bytes, same packet load again', as do the overlapping-slot cases of C03 and the big-packet stream of C01 (accesses far into a packet of 32-160 KiB). A third of the VMs each: program given to new(); created empty, configured first and loaded last; program given to new(), configured, then the same program loaded again with set_program() (the configuration must survive a reload). Exploration.",
          "Premise classification trusts the model; Cranelift compile time bounds the case count; known finding I2 excluded by signature.",
          "DESIGN.md section 3, C04"),
  "C08": ("proptest with instrumented helpers (assembly entry stubs recording rsp, shared-memory call log) against the reference model's call sequence, on all three engines",
@@ -64,7 +64,7 @@ CHECKS = {
          "Trusts harness/vrun/src/refver.rs as the statement of well-formedness.",
          "DESIGN.md section 3, C06"),
  "C13": ("proptest differential: generated assembly texts vs a table-driven reference assembler with an independent encoder",
-         "Texts over every documented mnemonic, operand shape, register, offset and immediate class and number spelling are assembled and compared byte for byte with what a reference assembler over the abstract syntax says they denote; invalid texts must be rejected. Repeated lines, line breaks inside instructions and long sources (200-4000 instructions) are generated. Exploration.",
+         "Texts over every documented mnemonic, operand shape, register, offset and immediate class and number spelling are assembled and compared byte for byte with what a reference assembler over the abstract syntax says they denote; invalid texts must be rejected. Repeated lines, line breaks inside instructions, long sources (200-4000 instructions) and register numbers around 2^32, 2^63 and 2^64 are generated. Exploration.",
          "Trusts harness/vrun/src/asmref.rs (mnemonic table from README/tests) and the reference encoder.",
          "DESIGN.md section 3, C13"),
  "C14": ("proptest crash oracle (catch_unwind) over token soup, arbitrary Unicode and mutated valid texts; thorough tier adds a coverage-guided libFuzzer campaign (cargo-fuzz, ASan) with the same oracle inside the target",
@@ -84,7 +84,7 @@ CHECKS = {
          "Pointer preconditions are respected by construction; println! is assumed to write to fd 1.",
          "DESIGN.md section 3, C19"),
  "C17": ("exhaustive per-field enumeration + proptest round trip / differential against an independent encoder, Insn encoder, builder and assembler",
-         "Exhaustive enumeration of each field (256x256 opcode/register bytes, all 65536 offsets, boundary immediates in quick and all 2^32 immediates in thorough) plus generated full slots at random program indices and generated builder-call chains, each compared with an independent reference encoder/decoder and cross-checked between Insn::to_array/to_vec, insn_builder and assemble(). Exhaustive per field, sampled for field combinations: exploration level. All 256 x 256 adjacent opcode pairs and programs with lengths around 2^16, 10^6 and 2^20 slots go through ebpf::to_insn_vec at every index. The bytes `(&instruction).into_bytes()` returns without pushing are compared as well.",
+         "Exhaustive enumeration of each field (256x256 opcode/register bytes, all 65536 offsets, boundary immediates in quick and all 2^32 immediates in thorough) plus generated full slots at random program indices and generated builder-call chains, each compared with an independent reference encoder/decoder and cross-checked between Insn::to_array/to_vec, insn_builder and assemble(). Exhaustive per field, sampled for field combinations: exploration level. All 256 x 256 adjacent opcode pairs and programs with lengths around 2^16, 10^6 and 2^20 slots go through ebpf::to_insn_vec at every index. The bytes `(&instruction).into_bytes()` returns without pushing are compared as well; builder load() is judged for every size (opcode LD|IMM|size).",
          "Trusts the 20-line reference encoder in harness/vrun/src/isa.rs; builder constructors that denote no instruction are excluded.",
          "DESIGN.md section 3, C17"),
 }
